@@ -779,5 +779,7 @@ def check(run, project):
     q5(run, project)
     from .shared import unbound_locals
     unbound_locals(run, project, "Q6", (PRETTY, EVENTS, "tpmstream.io.binary.unmarshal"), what="the printer fails instead of printing")
+    from .shared import undefined_names
+    undefined_names(run, project, "Q6", (PRETTY, EVENTS, "tpmstream.io.binary.unmarshal"), what="the printer fails instead of printing")
     run.floor("Q1", 15)
     run.floor("Q3", 60)
